@@ -13,9 +13,12 @@ import (
 	"encoding/json"
 	"fmt"
 	"go/ast"
+	"go/build"
 	"go/format"
+	"go/importer"
 	"go/parser"
 	"go/token"
+	"go/types"
 	"os"
 	"path/filepath"
 	"strings"
@@ -43,6 +46,9 @@ type instr struct {
 	next     int
 	mapNames map[string]bool // identifiers (fields, parameters, variables) that hold maps in this package
 	skipped  int
+	sorted   int
+	info     *types.Info // type information of the package being instrumented (nil: fall back to names)
+	loopID   int
 }
 
 // Known map types from other packages, by their unqualified name.
@@ -121,6 +127,13 @@ func isMapValue(v ast.Expr) bool {
 // rangesOverMap: conservative — anything that is not plainly a slice/array/string/channel name
 // known not to be a map counts as a map (calls such as URL.Query(), too).
 func (in *instr) rangesOverMap(e ast.Expr) bool {
+	if in.info != nil {
+		if t := in.info.TypeOf(e); t != nil {
+			_, isMap := t.Underlying().(*types.Map)
+			return isMap
+		}
+		return false // a node this tool synthesised (the sorted key slice)
+	}
 	switch x := e.(type) {
 	case *ast.Ident:
 		return in.mapNames[x.Name]
@@ -142,10 +155,52 @@ func (in *instr) call() ast.Stmt {
 func (in *instr) list(l []ast.Stmt) []ast.Stmt {
 	var out []ast.Stmt
 	for _, s := range l {
+		if r, ok := s.(*ast.RangeStmt); ok && in.info != nil && in.rangesOverMap(r.X) && (r.Key != nil || r.Value != nil) {
+			s = in.sortedRange(r)
+		}
 		in.stmt(s)
 		out = append(out, in.call(), s)
 	}
 	return out
+}
+
+// sortedRange rewrites `for k, v := range m { body }` over a map into
+//
+//	{ simM := m; for _, simK := range simSortedKeys(simM) { k, v := simK, simM[simK]; body } }
+//
+// Go leaves the iteration order of maps unspecified (and randomises it), so any fixed order is
+// a legal execution; fixing it makes the number and order of yields inside such loops a
+// function of the tape again. A key deleted by the body before its turn is skipped, as the
+// language guarantees for the original loop.
+func (in *instr) sortedRange(r *ast.RangeStmt) ast.Stmt {
+	in.loopID++
+	in.sorted++
+	mName := ast.NewIdent(fmt.Sprintf("simM%d", in.loopID))
+	kName := ast.NewIdent(fmt.Sprintf("simK%d", in.loopID))
+	okName := ast.NewIdent(fmt.Sprintf("simOk%d", in.loopID))
+	vName := ast.NewIdent(fmt.Sprintf("simV%d", in.loopID))
+	var pre []ast.Stmt
+	// simV, simOk := simM[simK]; if !simOk { continue }
+	pre = append(pre, &ast.AssignStmt{Lhs: []ast.Expr{vName, okName}, Tok: token.DEFINE, Rhs: []ast.Expr{&ast.IndexExpr{X: mName, Index: kName}}})
+	pre = append(pre, &ast.IfStmt{Cond: &ast.UnaryExpr{Op: token.NOT, X: okName}, Body: &ast.BlockStmt{List: []ast.Stmt{&ast.BranchStmt{Tok: token.CONTINUE}}}})
+	pre = append(pre, &ast.AssignStmt{Lhs: []ast.Expr{ast.NewIdent("_")}, Tok: token.ASSIGN, Rhs: []ast.Expr{vName}})
+	isBlank := func(e ast.Expr) bool {
+		id, ok := e.(*ast.Ident)
+		return e == nil || (ok && id.Name == "_")
+	}
+	if !isBlank(r.Key) {
+		pre = append(pre, &ast.AssignStmt{Lhs: []ast.Expr{r.Key}, Tok: r.Tok, Rhs: []ast.Expr{kName}})
+	}
+	if !isBlank(r.Value) {
+		pre = append(pre, &ast.AssignStmt{Lhs: []ast.Expr{r.Value}, Tok: r.Tok, Rhs: []ast.Expr{vName}})
+	}
+	body := &ast.BlockStmt{List: append(pre, r.Body.List...)}
+	loop := &ast.RangeStmt{Key: ast.NewIdent("_"), Value: kName, Tok: token.DEFINE,
+		X: &ast.CallExpr{Fun: ast.NewIdent("simSortedKeys"), Args: []ast.Expr{mName}}, Body: body}
+	return &ast.BlockStmt{List: []ast.Stmt{
+		&ast.AssignStmt{Lhs: []ast.Expr{mName}, Tok: token.DEFINE, Rhs: []ast.Expr{r.X}},
+		loop,
+	}}
 }
 
 func (in *instr) block(b *ast.BlockStmt) {
@@ -167,9 +222,9 @@ func (in *instr) stmt(s ast.Stmt) {
 	case *ast.ForStmt:
 		in.block(x.Body)
 	case *ast.RangeStmt:
-		if in.rangesOverMap(x.X) {
+		if in.rangesOverMap(x.X) && (x.Key != nil || x.Value != nil) {
 			in.skipped++
-			return // no yields inside a loop whose iteration order the runtime randomises
+			return // (only without type information) no yields inside a loop whose order the runtime randomises
 		}
 		in.block(x.Body)
 	case *ast.SwitchStmt:
@@ -227,6 +282,9 @@ func main() {
 			}
 		}
 	}
+	os.Chdir(repo)
+	build.Default.Dir = repo
+	build.Default.BuildTags = []string{"verif"}
 	for _, p := range pkgs {
 		dir := filepath.Join(repo, p)
 		ents, err := os.ReadDir(dir)
@@ -234,18 +292,39 @@ func main() {
 			fmt.Fprintln(os.Stderr, err)
 			os.Exit(2)
 		}
+		fset := token.NewFileSet()
+		var files []*ast.File
+		var names []string
 		for _, e := range ents {
 			n := e.Name()
-			if e.IsDir() || !strings.HasSuffix(n, ".go") || strings.HasSuffix(n, "_test.go") || strings.HasPrefix(n, "simhook_") {
+			if e.IsDir() || !strings.HasSuffix(n, ".go") || strings.HasSuffix(n, "_test.go") || n == "simhook_off.go" {
 				continue
 			}
-			src := filepath.Join(dir, n)
-			fset := token.NewFileSet()
-			f, err := parser.ParseFile(fset, src, nil, parser.ParseComments)
+			f, err := parser.ParseFile(fset, filepath.Join(dir, n), nil, parser.ParseComments)
 			if err != nil {
 				fmt.Fprintln(os.Stderr, err)
 				os.Exit(2)
 			}
+			files = append(files, f)
+			names = append(names, n)
+		}
+		// Type information tells map ranges from slice ranges exactly. A package that does not
+		// type-check (it would not compile either) falls back to the name heuristic.
+		info := &types.Info{Types: map[ast.Expr]types.TypeAndValue{}}
+		conf := types.Config{Importer: importer.ForCompiler(fset, "source", nil), Error: func(error) {}}
+		if _, err := conf.Check("autoyield/"+p, fset, files, info); err == nil {
+			in.info = info
+		} else {
+			in.info = nil
+			fmt.Fprintf(os.Stderr, "autoyield: %s does not type-check (%v): map ranges are left alone by name\n", p, err)
+		}
+		sortedBefore := in.sorted
+		for fi, f := range files {
+			n := names[fi]
+			if strings.HasPrefix(n, "simhook_") {
+				continue
+			}
+			src := filepath.Join(dir, n)
 			before := in.next
 			for _, d := range f.Decls {
 				fd, ok := d.(*ast.FuncDecl)
@@ -253,8 +332,6 @@ func main() {
 					continue
 				}
 				if usesLock(fd) {
-					// still instrument function literals that do not lock (e.g. the handler
-					// closures returned by constructors) — only if the lock is outside them
 					continue
 				}
 				in.block(fd.Body)
@@ -270,7 +347,6 @@ func main() {
 			}
 			dst := filepath.Join(out, p, n)
 			os.MkdirAll(filepath.Dir(dst), 0o755)
-			// build constraints live in comments: re-add any leading //go:build line
 			head := ""
 			if raw, err := os.ReadFile(src); err == nil {
 				for _, l := range strings.Split(string(raw), "\n") {
@@ -286,6 +362,13 @@ func main() {
 			overlay[src] = dst
 			sites += in.next - before
 		}
+		if in.sorted > sortedBefore {
+			pkgName := files[0].Name.Name
+			helper := filepath.Join(out, p, "simsort_auto.go")
+			os.MkdirAll(filepath.Dir(helper), 0o755)
+			os.WriteFile(helper, []byte("package "+pkgName+"\n\nimport (\n\t\"fmt\"\n\t\"sort\"\n)\n\n// simSortedKeys returns the keys of m in a fixed order (instrumented builds only).\nfunc simSortedKeys[M ~map[K]V, K comparable, V any](m M) []K {\n\tkeys := make([]K, 0, len(m))\n\tfor k := range m {\n\t\tkeys = append(keys, k)\n\t}\n\tsort.Slice(keys, func(i, j int) bool { return fmt.Sprint(keys[i]) < fmt.Sprint(keys[j]) })\n\treturn keys\n}\n"), 0o644)
+			overlay[filepath.Join(dir, "simsort_auto.go")] = helper
+		}
 	}
 	// package inject has no hook of its own: add one, and let SetSimYield install it.
 	injHook := filepath.Join(out, "inject", "simhook_auto.go")
@@ -295,7 +378,23 @@ func main() {
 	rootHook := filepath.Join(out, "simhook_on.go")
 	os.WriteFile(rootHook, []byte("//go:build verif\n\npackage flamego\n\nimport (\n\t\"github.com/flamego/flamego/inject\"\n\t\"github.com/flamego/flamego/internal/route\"\n)\n\nvar simYieldFn func(site int)\n\nfunc SetSimYield(f func(site int)) {\n\tsimYieldFn = f\n\troute.SimYield = f\n\tinject.SimYield = f\n}\n\nfunc simYield(site int) {\n\tif simYieldFn != nil {\n\t\tsimYieldFn(site)\n\t}\n}\n"), 0o644)
 	overlay[filepath.Join(repo, "simhook_on.go")] = rootHook
+	if in.sorted > 0 {
+		// simSortedKeys is generic over comparable keys, and interface-typed keys (reflect.Type in
+		// package inject) satisfy comparable only from Go 1.20 on: the instrumented copy of the
+		// module declares that language version (the copy only; /repo's go.mod is untouched).
+		if raw, err := os.ReadFile(filepath.Join(repo, "go.mod")); err == nil {
+			lines := strings.Split(string(raw), "\n")
+			for i, l := range lines {
+				if strings.HasPrefix(l, "go 1.") {
+					lines[i] = "go 1.20"
+				}
+			}
+			gm := filepath.Join(out, "go.mod")
+			os.WriteFile(gm, []byte(strings.Join(lines, "\n")), 0o644)
+			overlay[filepath.Join(repo, "go.mod")] = gm
+		}
+	}
 	b, _ := json.MarshalIndent(map[string]any{"Replace": overlay}, "", " ")
 	os.WriteFile(filepath.Join(out, "overlay.json"), b, 0o644)
-	fmt.Printf("autoyield: %d yield sites in %d files (%d map-range loops left alone)\n", sites, len(overlay)-2, in.skipped)
+	fmt.Printf("autoyield: %d yield sites in %d files (%d map-range loops iterate in sorted order, %d left alone)\n", sites, len(overlay)-2, in.sorted, in.skipped)
 }
